@@ -140,6 +140,25 @@ impl Monitor for C07 {
                 self.rep.violate(&format!("C07|root-not-function-of-contents|{}|header", name), format!("the {} root in the header differs from the Merkle root of the tree's iterated contents ({} entries)", name, contents.len()), self.wit(w, ev, json!(null)));
             }
         }
+        // the coins root is a function of the coin set alone: with TIP-906 the per-covenant counts in the same
+        // tree are derived data, so the root must equal the reference root over the coins plus their census
+        if tip_active(w.net, ev.height, TIP_906) {
+            let mut derived: BTreeMap<H, Vec<u8>> = BTreeMap::new();
+            let mut census: BTreeMap<[u8; 32], u64> = BTreeMap::new();
+            for (k, v) in coins_c.iter() {
+                if let CoinEntry::Coin(c) = classify_coin_entry(v) {
+                    derived.insert(*k, v.clone());
+                    *census.entry(c.coin_data.covhash.0 .0).or_default() += 1;
+                }
+            }
+            for (cov, n) in census {
+                derived.insert(count_key(&melstructs::Address(HashVal(cov))), n.stdcode());
+            }
+            self.rep.count("coin roots recomputed from the coin set alone (counts derived)");
+            if refsmt::sparse_root(&derived) != hdr.coins_hash.0 {
+                self.rep.violate("C07|root-not-function-of-contents|coins|coin-set-with-derived-counts", "coins_hash differs from the Merkle root over the unspent coins and the counts derived from them: the commitment depends on how the state was reached".into(), self.wit(w, ev, json!({"coins": derived.len()})));
+            }
+        }
         // history contents: exactly heights below this one that we know, each the right header
         for a in self.headers.iter() {
             let k = height_key(a.height.0);
@@ -393,7 +412,14 @@ pub fn run(p: &Params) -> Report {
         }
         mon.case_seed = case_seed;
         mon.headers.clear();
-        let mut w = if case % 3 == 0 { World::fabricated(case_seed, NetID::Custom08, 3 + case % 5, 0, 0) } else { World::random(case_seed) };
+        let mut w = if case % 3 == 0 {
+            World::fabricated(case_seed, NetID::Custom08, 3 + case % 5, 0, 0)
+        } else if case % 7 == 1 {
+            // histories that cross the TIP-906 activation (the one-off count census)
+            if case % 2 == 0 { World::fabricated(case_seed, NetID::Testnet, 494 + case % 5, 0, 0) } else { World::fabricated(case_seed, NetID::Mainnet, 829_993 + case % 6, 0, 0) }
+        } else {
+            World::random(case_seed)
+        };
         if let Some(t) = &w.tip {
             // the state the world starts from is an ancestor too
             mon.headers.push(t.header());
